@@ -4,6 +4,7 @@
   `Notifier.step` / `Spec.Notifier.run` for several groups and clusters interleaved.
 -/
 import BurrowVerif.Proofs.Notifier
+import BurrowVerif.Proofs.NotifierRefresh
 
 namespace Burrow.Props.C13
 open Burrow Burrow.Notifier Burrow.Spec.Notifier
@@ -68,6 +69,17 @@ example : (runG [m] GroupRec.fresh hist).map (fun ns => ns.map fun n => (n.id, n
 An incident lives in its group's record (id, start, last notifications).  The refresh that re-reads
 the group listings from storage must not disturb the record of a group that is still there — also
 when storage is too busy to take a consumer-list request within the one-second timeout. -/
+
+/-- **a refresh keeps the record — id, start time, last notifications — of every group that is still
+    listed**, whichever consumer-list requests storage answered: an open incident keeps its identity
+    across every refresh during which its group stays in storage's listing -/
+theorem refresh_keeps_incident (listing : List (String × List String)) (answered : String → Bool) (s : NState)
+    (k : String × String) (r : GroupRec)
+    (hl : listing.any (·.1 == k.1) = true)
+    (hin : ∀ cg ∈ listing, cg.1 = k.1 → answered k.1 = true → k.2 ∈ cg.2)
+    (hr : lookupG k s = some r) :
+    lookupG k (refresh listing answered s) = some r :=
+  refresh_keeps_listed listing answered s k r hl hin hr
 
 /-- a refresh none of whose consumer-list requests is taken changes no record of a listed cluster (it
     only drops clusters that are no longer listed) -/
